@@ -153,6 +153,7 @@ func Main(t *testing.T, reg Registry) {
 	c.loadKnown()
 	c.Pool = NewPool(Workers())
 	fn(c)
+	c.confirmViolations()
 	c.Pool.Close()
 	code := c.finish()
 	os.Exit(code)
@@ -287,6 +288,40 @@ func (c *Ctx) Violate(v Violation, job Job) {
 		c.viol[k] = &foundViolation{V: v, Job: job, Count: 1}
 	} else {
 		fv.Count++
+	}
+}
+
+// confirmViolations re-runs the witness of every violation that is not a known finding three more times on fresh
+// workers: the same history must fail the same way every time. A violation that never reproduces is nondeterminism the
+// harness does not own; it is reported as a harness error, not as a finding.
+func (c *Ctx) confirmViolations() {
+	for k, fv := range c.viol {
+		if fv.Job.Exec == "" || c.matchKnown(fv.V) != nil {
+			continue
+		}
+		jobs := []Job{fv.Job, fv.Job, fv.Job}
+		rs := c.Pool.Map(jobs)
+		hits := 0
+		for _, r := range rs {
+			if r.Crash != "" && fv.V.Prop == "C09" && CrashSig(r.Crash) == fv.V.Sig {
+				hits++
+				continue
+			}
+			for _, v := range r.Viol {
+				if v.Prop == fv.V.Prop && v.Sig == fv.V.Sig {
+					hits++
+					break
+				}
+			}
+		}
+		c.counters["violation_replays"] += 3
+		c.counters["violation_replays_reproduced"] += int64(hits)
+		if hits == 0 {
+			delete(c.viol, k)
+			c.HarnessError(fmt.Sprintf("violation %s %q did not reproduce in 3 replays of %v %v: nondeterminism not owned by the harness", fv.V.Prop, fv.V.Sig, fv.Job.Hist, fv.Job.Args))
+		} else {
+			fv.V.Msg += fmt.Sprintf("\n(reproduced in %d of 3 replays)", hits)
+		}
 	}
 }
 
